@@ -17,25 +17,52 @@ Local Open Scope N_scope.
     reverse order, [Lst l] = anything else *)
 Inductive olist := Same | Rev | Lst (l : list entry).
 
-Inductive query :=
-| QSearch (key : bytes) (maxvs : N) (obs : option entry)     (* table.Search *)
-| QSeek (asc : bool) (key : bytes) (obs : list entry).       (* Seek, then up to 3 items with Next *)
+(** an observed entry: [I n] = the n-th built entry (from 0), [X e] = another one *)
+Inductive oent := I (n : N) | X (e : entry).
+
+(** a lookup target: Search(key, &maxvs), Seek(key) forward and reverse *)
+Record target := { tg_key : bytes; tg_maxvs : N }.
+(** what the table answered: Search; Seek + up to 3 items with Next, forward; same, reverse *)
+Record tres := { r_search : option oent; r_fwd : list oent; r_rev : list oent }.
 
 Record obs := {
   o_layout : list (bytes * N * N);    (* per block: base key, entries, BlockOffset.Len *)
   o_bloom : bytes; o_maxver : N; o_count : N;
   o_fwd : olist; o_rev : olist;
-  o_queries : list query }.
+  o_res : list tres }.
+
+(** observations after reopening: [AsBuilt] = identical to those before *)
+Inductive robs := AsBuilt | Reopened (o : obs).
 
 Record case := {
   c_bsz : N; c_with_bloom : bool; c_bpk : N; c_k : N;
-  c_entries : list entry;
-  c_built : obs; c_reopened : obs }.
+  c_entries : list entry; c_targets : list target;
+  c_built : obs; c_reopened : robs }.
 
 Definition seek_limit : nat := 3.
 
 Definition resolve (es : list entry) (o : olist) : list entry :=
   match o with Same => es | Rev => rev es | Lst l => l end.
+
+Definition resolve_ent (es : list entry) (o : oent) : option entry :=
+  match o with I n => nth_error es (N.to_nat n) | X e => Some e end.
+
+(** [None]: an index outside the built entries (always a mismatch and a violation) *)
+Fixpoint resolve_ents (es : list entry) (os : list oent) : option (list entry) :=
+  match os with
+  | [] => Some []
+  | o :: os' =>
+      match resolve_ent es o, resolve_ents es os' with
+      | Some e, Some l => Some (e :: l)
+      | _, _ => None
+      end
+  end.
+
+Definition resolve_opt (es : list entry) (o : option oent) : option (option entry) :=
+  match o with
+  | None => Some None
+  | Some x => match resolve_ent es x with Some e => Some (Some e) | None => None end
+  end.
 
 Definition layout_of (t : table) : list (bytes * N * N) :=
   map (fun b => (b_base b, b_count b, b_len b)) (t_blocks t).
@@ -46,54 +73,82 @@ Definition layout_eqb (a b : list (bytes * N * N)) : bool :=
 Definition olist_ok (m : option (list entry)) (obs : list entry) : bool :=
   match m with Some l => list_eqb entry_eqb l obs | None => false end.
 
-Definition query_model_ok (t : table) (q : query) : bool :=
-  match q with
-  | QSearch k mv o => opt_eqb entry_eqb (search t k mv) o
-  | QSeek asc k o =>
-      match seek_iterate asc t k with
-      | Some l => list_eqb entry_eqb (firstn seek_limit l) o
-      | None => false
-      end
+(** Seek, then at most [n] items: [for it.Seek(k); it.Valid() && len(out) < n; it.Next()] *)
+Fixpoint take_items (asc : bool) (t : table) (n : nat) (it : titer) : list entry :=
+  match n with
+  | O => []
+  | S n' => match ti_item it with
+            | None => []
+            | Some e => e :: take_items asc t n' (ti_next asc t it)
+            end
   end.
 
-Definition query_spec_ok (es : list entry) (q : query) : bool :=
-  match q with
-  | QSearch k mv o => opt_eqb entry_eqb (spec_search es k mv) o
-  | QSeek asc k o => list_eqb entry_eqb (firstn seek_limit (spec_from asc es k)) o
+Definition ents_ok (es : list entry) (model : list entry) (o : list oent) : bool :=
+  match resolve_ents es o with
+  | Some o' => list_eqb entry_eqb model o'
+  | None => false
   end.
 
-Definition obs_model_ok (t : table) (es : list entry) (o : obs) : bool :=
+Definition search_ok (es : list entry) (model : option entry) (o : option oent) : bool :=
+  match resolve_opt es o with
+  | Some o' => opt_eqb entry_eqb model o'
+  | None => false
+  end.
+
+Fixpoint forallb2 {A B} (f : A -> B -> bool) (a : list A) (b : list B) : bool :=
+  match a, b with
+  | [], [] => true
+  | x :: a', y :: b' => f x y && forallb2 f a' b'
+  | _, _ => false
+  end.
+
+Definition res_model_ok (t : table) (es : list entry) (tg : target) (r : tres) : bool :=
+  search_ok es (search t (tg_key tg) (tg_maxvs tg)) (r_search r)
+  && ents_ok es (take_items true t seek_limit (tseek true t (tg_key tg))) (r_fwd r)
+  && ents_ok es (take_items false t seek_limit (tseek false t (tg_key tg))) (r_rev r).
+
+Definition res_spec_ok (es : list entry) (tg : target) (r : tres) : bool :=
+  search_ok es (spec_search es (tg_key tg) (tg_maxvs tg)) (r_search r)
+  && ents_ok es (firstn seek_limit (spec_from true es (tg_key tg))) (r_fwd r)
+  && ents_ok es (firstn seek_limit (spec_from false es (tg_key tg))) (r_rev r).
+
+Definition obs_model_ok (t : table) (es : list entry) (tgs : list target) (o : obs) : bool :=
   layout_eqb (layout_of t) (o_layout o)
   && bytes_eqb (t_bloom t) (o_bloom o) && (t_maxver t =? o_maxver o) && (t_count t =? o_count o)
   && olist_ok (iterate true t) (resolve es (o_fwd o))
   && olist_ok (iterate false t) (resolve es (o_rev o))
-  && forallb (query_model_ok t) (o_queries o).
+  && forallb2 (res_model_ok t es) tgs (o_res o).
 
-Definition obs_spec_ok (es : list entry) (o : obs) : bool :=
+Definition obs_spec_ok (es : list entry) (tgs : list target) (o : obs) : bool :=
   list_eqb entry_eqb (spec_iter true es) (resolve es (o_fwd o))
   && list_eqb entry_eqb (spec_iter false es) (resolve es (o_rev o))
-  && forallb (query_spec_ok es) (o_queries o).
+  && forallb2 (res_spec_ok es) tgs (o_res o).
 
 Definition check (c : case) : verdict :=
   let es := c_entries c in
+  let tgs := c_targets c in
   let m :=
     match build (c_bsz c) (c_with_bloom c) (c_bpk c) (c_k c) es with
     | None => true
-    | Some t => negb (obs_model_ok t es (c_built c) && obs_model_ok t es (c_reopened c))
+    | Some t =>
+        negb (obs_model_ok t es tgs (c_built c)
+              && match c_reopened c with AsBuilt => true | Reopened o => obs_model_ok t es tgs o end)
     end in
   (* the specification speaks about sorted tables of well-formed internal keys *)
   let pre := sorted_b es && keys_ok_b es in
-  let v := pre && negb (obs_spec_ok es (c_built c) && obs_spec_ok es (c_reopened c)) in
+  let v := pre && negb (obs_spec_ok es tgs (c_built c)
+                        && match c_reopened c with AsBuilt => true | Reopened o => obs_spec_ok es tgs o end) in
   mk_verdict m v 0.
 
 (* helpers so that the harness prints compact terms *)
 Definition E (k : string) (meta exp : N) (v : string) : entry :=
   {| e_key := unhex k; e_vs := {| vs_meta := meta; vs_exp := exp; vs_val := unhex v |} |}.
 Definition L (k : string) (n len : N) : bytes * N * N := (unhex k, n, len).
-Definition QS (k : string) (mv : N) (o : option entry) : query := QSearch (unhex k) mv o.
-Definition QK (asc : bool) (k : string) (o : list entry) : query := QSeek asc (unhex k) o.
-Definition O (lay : list (bytes * N * N)) (bloom : string) (maxver count : N) (fwd rev : olist) (qs : list query) : obs :=
+Definition T (k : string) (mv : N) : target := {| tg_key := unhex k; tg_maxvs := mv |}.
+Definition R (s : option oent) (f r : list oent) : tres := {| r_search := s; r_fwd := f; r_rev := r |}.
+Definition O (lay : list (bytes * N * N)) (bloom : string) (maxver count : N) (fwd rev : olist) (rs : list tres) : obs :=
   {| o_layout := lay; o_bloom := unhex bloom; o_maxver := maxver; o_count := count;
-     o_fwd := fwd; o_rev := rev; o_queries := qs |}.
-Definition Cs (bsz : N) (wb : bool) (bpk k : N) (es : list entry) (b r : obs) : case :=
-  {| c_bsz := bsz; c_with_bloom := wb; c_bpk := bpk; c_k := k; c_entries := es; c_built := b; c_reopened := r |}.
+     o_fwd := fwd; o_rev := rev; o_res := rs |}.
+Definition Cs (bsz : N) (wb : bool) (bpk k : N) (es : list entry) (tgs : list target) (b : obs) (r : robs) : case :=
+  {| c_bsz := bsz; c_with_bloom := wb; c_bpk := bpk; c_k := k; c_entries := es; c_targets := tgs;
+     c_built := b; c_reopened := r |}.
